@@ -257,7 +257,7 @@ def run_campaign(cp, workdir, engines=("large", "fast"), nshards=NCPU, maxsteps=
                 md = os.path.join(workdir, "meta.s%02d.%s" % (si, kind))
                 jobs.append((kind, si, "pair", tlc_cmd("Lockstep.tla", "Lockstep.cfg", md),
                              {"TRACEA": a, "TRACEB": b, "PROP": "C03"}))
-    outs = run_parallel([j[3] for j in jobs], env=[j[4] for j in jobs], timeout=3000)
+    outs = run_parallel([j[3] for j in jobs], env=[j[4] for j in jobs], timeout=9000)
     t3 = time.time()
     verdicts = []
     states = 0
@@ -295,7 +295,7 @@ def run_campaign(cp, workdir, engines=("large", "fast"), nshards=NCPU, maxsteps=
                             if keep:
                                 outf.write(line)
             md = os.path.join(workdir, "meta.mon.diff")
-            (rc, out), = run_parallel([tlc_cmd("Trace_Monitor.tla", "Trace_Monitor.cfg", md)], env={"TRACE": sub}, timeout=3000)
+            (rc, out), = run_parallel([tlc_cmd("Trace_Monitor.tla", "Trace_Monitor.cfg", md)], env={"TRACE": sub}, timeout=9000)
             p = parse_tlc(out)
             states += p["distinct"]
             if not (p["ok"] and p["error"] is None):
@@ -317,11 +317,11 @@ def run_campaign(cp, workdir, engines=("large", "fast"), nshards=NCPU, maxsteps=
             b = os.path.join(workdir, "confirm.%s.batch" % eng)
             tr = os.path.join(workdir, "confirm.%s.ndjson" % eng)
             write_batch(cp, [byid[i] for i in ids], eng, b, {})
-            run_parallel([[os.path.join(BIN, "interp_trace"), b, tr, "10"]], env={"VERIF_MAXSTEPS": str(maxsteps), "USCXML_NOCACHE_FILES": "YES"}, timeout=3000)
+            run_parallel([[os.path.join(BIN, "interp_trace"), b, tr, "10"]], env={"VERIF_MAXSTEPS": str(maxsteps), "USCXML_NOCACHE_FILES": "YES"}, timeout=9000)
             md = os.path.join(workdir, "meta.confirm.%s" % eng)
             cmd = tlc_cmd("Trace_Step.tla", cfgp, md)
             cmd[cmd.index("-config") + 1] = cfgp
-            (rc, out), = run_parallel([cmd], env={"CHARTS": charts_file, "TRACE": tr}, timeout=3000)
+            (rc, out), = run_parallel([cmd], env={"CHARTS": charts_file, "TRACE": tr}, timeout=9000)
             p = parse_tlc(out)
             shutil.rmtree(md, ignore_errors=True)
             if not (p["ok"] and p["error"] is None):
